@@ -7,8 +7,13 @@ _K = ("Tie to the code (checked on every run, not asserted): constants, guard li
 _TB = ("Trusted: Lean 4.33 kernel; axioms propext, Classical.choice, Quot.sound only (audited with #print axioms each run; no sorry, "
        "native_decide, bv_decide; `decide +kernel` for finite tables); tools/gen_lean.py (literal extraction, fails closed on "
        "src/constants/mod.rs); the differential correspondence, whose strength is that of the generators printed in the evidence; "
-       "Rust integer semantics modelled on unbounded Int (/,% as tdiv/tmod, checked_* as range tests); slices as List; "
+       "tools/rs2lean.py (Rust-subset translator; its conventions are listed in DESIGN §13); Rust integer semantics modelled on unbounded Int (/,% as tdiv/tmod, checked_* as range tests); slices as List; "
        "core::fmt padding and str::parse on digit strings modelled; 64-bit usize; rustc/cargo and catch_unwind.")
+
+
+_S = ("Second tie (DESIGN §13): the functions this property is about are translated from /repo/src to Lean on every run "
+      "(tools/rs2lean.py) and proved EQUAL to the model functions (Proofs/SrcEq*.lean, loops and casts included), so the theorems "
+      "are re-checked against what the source says now; a change to a translated function breaks the equality or leaves it intact. ")
 
 
 def _c(text, technique, note=_TB):
@@ -18,26 +23,26 @@ def _c(text, technique, note=_TB):
 CLAIMS = {
     "C01": _c("Proved in Lean for ALL integers t: an accepted timestamp yields a real date, time in range, whose second count is t "
               "(fields_correct), acceptance iff MIN ≤ t ≤ MAX else OutOfRange (accepted_iff, refused), the range ends are the first/last "
-              "second of years i32::MIN/MAX, uniqueness of the fields, weekday and day-of-year. " + _K +
+              "second of years i32::MIN/MAX, uniqueness of the fields, weekday and day-of-year. " + _S + _K +
               "gmtime family: the whole 400-year cycle at two seconds per day (exhaustive for the quotient the property names), both range "
               "ends, i64 extremes, random instants.",
-              "Lean 4 proof (unbounded) + exhaustive-cycle differential correspondence"),
+              "Lean 4 proof (unbounded) + source translated to Lean and proved equal to the model + exhaustive-cycle differential correspondence"),
     "C02": _c("Proved: the day count equals the spec's day number for every year (both branches of the 1970 split, 32 December included); "
               "the constructor's answer clause by clause (new_correct) and acceptance iff real date/time; Unix time = second count; second 60 = "
-              "next minute; both round trips; lexicographic order iff Unix-time order. " + _K +
+              "next minute; both round trips; lexicographic order iff Unix-time order. " + _S + _K +
               "utcnew/utccmp families over year classes x months 0..13 x days 0..32 x boundary times.",
-              "Lean 4 proof (unbounded) + differential correspondence"),
+              "Lean 4 proof (unbounded) + source translated to Lean and proved equal to the model + differential correspondence"),
     "C03": _c("Proved for tables of any length: binary search correct on strictly increasing data and total; before the last transition the "
               "type is that of the latest transition at or before the instant (filter-based spec), the first type before the first transition, "
-              "rule or NoAvailableLocalTimeType after the last; the local date-time is the C01 calendar of instant+offset. " + _K +
+              "rule or NoAvailableLocalTimeType after the last; the local date-time is the C01 calendar of instant+offset. " + _S + _K +
               "zone/lookup/dtfrom/dtfromtn families on generated zones at every transition and leap record -1/0/+1 on both scales.",
-              "Lean 4 proof (induction, unbounded table) + differential correspondence"),
+              "Lean 4 proof (induction, unbounded table) + source translated to Lean and proved equal to the model + differential correspondence"),
     "C04": _c("Proved: the three day notations compute what they mean for every year (Mm.w.d against a scan of the month); the year guard; and "
               "PARTIAL: for accepted interleaving rules that are tie-free the answer is DST exactly inside a period [start(y), following end) "
               "with the matching half of the rule, and changes only at start/end instants. The full statement is false of the code: "
-              "¬C04_full is itself a theorem (full_statement_is_false; known finding F1). " + _K +
+              "¬C04_full is itself a theorem (full_statement_is_false; known finding F1). " + _S + _K +
               "rule-only zones, lookups at start/end/New Year -1/0/+1 over year sets incl. the year-guard ends.",
-              "Lean 4 proof (partial: TieFree) + differential correspondence + known finding"),
+              "Lean 4 proof (partial: TieFree) + source translated to Lean and proved equal to the model + differential correspondence + known finding"),
     "C05": _c("Proved (PARTIAL) for zones without a DST rule (table, table+fixed rule, fixed rule, single type; any offsets, leap seconds) and "
               "for zones WITH a DST rule meeting C04's hypotheses (every IANA rule does: proved over the regenerated list) for searched years "
               "inside the year guard: every valid result shows the searched local time under the forward lookup, no such instant of the i64 "
@@ -78,32 +83,32 @@ CLAIMS = {
     "C11": _c("Proved: the constructor accepts iff the guards hold and, for EVERY year, the three weak-order clauses of the property hold "
               "(new_accepts_iff), each refusal names its clause (new_errors), and no accepted rule ever flips order (no_order_flip). 'Every year' reduces to 28 consecutive years by a proved year-kind "
               "argument; Julian x Julian by arithmetic; the month-week-day cases by kernel-evaluated tables over all (month, week, weekday) "
-              "with the time-of-day handled symbolically at the breakpoints (`decide +kernel`, 21 table modules). " + _K +
+              "with the time-of-day handled symbolically at the breakpoints (`decide +kernel`, 21 table modules). " + _S + _K +
               "rulenew family: all 1151x1151 day-notation pairs with breakpoint values of d and the limits of the three range tests.",
-              "Lean 4 proof (year-kind reduction + kernel-decided tables) + exhaustive-pair differential correspondence"),
+              "Lean 4 proof (year-kind reduction + kernel-decided tables) + source translated to Lean and proved equal to the model + exhaustive-pair differential correspondence"),
     "C12": _c("Proved for every well-formed leap table: the backward conversion is the spec's toUtc; the Galois connection T ≤ toCount u ⟺ toUtc T ≤ u "
               "(a transition takes effect exactly at the instant its count denotes; the search reports the instant the lookup switches); both "
-              "monotone; round trip off deleted seconds; insertion shares / deletion skips; the pre-fix function violates it (F3, fixed). " + _K +
+              "monotone; round trip off deleted seconds; insertion shares / deletion skips; the pre-fix function violates it (F3, fixed). " + _S + _K +
               "probe zones [(T→1),(i64::MAX→0)] with generated tables (insertions, deletions, minimum spacing) and the search.",
-              "Lean 4 proof (induction over the table) + differential correspondence"),
+              "Lean 4 proof (induction over the table) + source translated to Lean and proved equal to the model + differential correspondence"),
     "C13": _c("Proved: the constructor accepts iff the zone is well-formed (each clause of the property), each error blames its clause, the "
               "saturating arithmetic decides the mathematical conditions, local time types accept exactly offset ≠ i32::MIN and 3–7 characters "
-              "of [A-Za-z0-9+-]. Owned = borrowed: one function in model and source; the harness calls both. " + _K +
+              "of [A-Za-z0-9+-]. Owned = borrowed: one function in model and source; the harness calls both. " + _S + _K +
               "zonenew family: valid zones and every single-defect perturbation incl. one-character designation changes.",
-              "Lean 4 proof + differential correspondence"),
+              "Lean 4 proof + source translated to Lean and proved equal to the model + differential correspondence"),
     "C14": _c("Proved: the invariant (fields are a real date/time whose second count is Unix time + offset) for every constructor, projection "
-              "and every search entry incl. gaps; exact answer of construction from fields; equality/ordering on (Unix time, ns). " + _K +
+              "and every search entry incl. gaps; exact answer of construction from fields; equality/ordering on (Unix time, ns). " + _S + _K +
               "dtnew/dtfromlocal/dttn/dtfromtn/dtcmp/dtfrom/find families incl. exact range ends for every kind of offset.",
-              "Lean 4 proof + differential correspondence"),
+              "Lean 4 proof + source translated to Lean and proved equal to the model + differential correspondence"),
     "C15": _c("PARTIAL. Static: whole-source inventory (statics, thread_local, unsafe, Cell/Atomic/Mutex/Once/Lazy/Rc/raw pointers, env, ambient "
               "calls) regenerated into Lean each run and decided by `decide`; rustc decides Send+Sync for every public type in the harness build. "
               "Dynamic: 16 threads regenerate the corpus concurrently and query shared zones; per-call answers must equal the sequential run, "
               "which is compared with the stateless model. No theorem can quantify over Rust schedules.",
               "source inventory decided in Lean + rustc auto-trait check + threaded differential"),
     "C16": _c("Proved: the split is floor division by 1e9 with remainder in [0, 999999999], unique; recombination and both round trips; the total "
-              "fits i128; constructors from total nanoseconds equal those from the pair; ns ≥ 1e9 refused. " + _K +
+              "fits i128; constructors from total nanoseconds equal those from the pair; ns ≥ 1e9 refused. " + _S + _K +
               "utctn/dttn/dtfromtn families at multiples of 1e9 ± 1, range ends, i128 extremes, negative totals around transitions.",
-              "Lean 4 proof + differential correspondence"),
+              "Lean 4 proof + source translated to Lean and proved equal to the model + differential correspondence"),
     "C17": _c("Proved for ANY buffer and ANY pushed sequence: final buffer = first min(n,k) results then the untouched tail, count = k, exhaustive iff "
               "n ≥ k, accessors agree when exhaustive, both entry points run the same search. " + _K +
               "findn family: every n in 0..k+2 with stale-filled buffers; oracle compares find_n with find on the implementation itself.",
